@@ -22,7 +22,10 @@ def prec(e):
 def sql(e):
     t = e["t"]
     if t == "col": return e["c"]
-    if t == "path": return ".".join(e["p"])
+    if t == "path":
+        if e.get("br"):      # bracket access: base['key with any text']
+            return e["p"][0] + "".join("['%s']" % k for k in e["p"][1:])
+        return ".".join(e["p"])
     if t == "num":
         return str(e["n"]) if e["d"] == 1 else repr(e["n"] / e["d"])
     if t == "str": return "'" + "".join(e["cs"]) + "'"
